@@ -206,14 +206,52 @@ func (w *world) must(h util.Uint160, signers []neotest.Signer, method string, ar
 	return r
 }
 
-func (w *world) alpha() []neotest.Signer { return []neotest.Signer{w.c.Alpha} }
+// alpha is the signer set of the setup transactions that need the Alphabet: BOTH multi-signature accounts of
+// the committee sign them, so that building the pre-states does not depend on which threshold the code under
+// test asks for - a threshold confusion then shows up in the cells, not as a broken harness.
+func (w *world) alpha() []neotest.Signer { return []neotest.Signer{w.c.Alpha, w.c.Cmt} }
+
+func (w *world) hashOf(ctr *neotest.Contract) util.Uint160 {
+	return state.CreateContractHash(w.c.Payer.ScriptHash(), ctr.NEF.Checksum, ctr.Manifest.Name)
+}
+
+// deploy deploys from the fee payer's account with the witnesses of both committee accounts.
+func (w *world) deploy(ctr *neotest.Contract, data any) util.Uint160 {
+	nb, err := ctr.NEF.Bytes()
+	require.NoError(w.t, err)
+	mb, err := json.Marshal(ctr.Manifest)
+	require.NoError(w.t, err)
+	r := w.c.Run(w.c.E.NativeHash(w.t, nativenames.Management), w.alpha(), "deploy", nb, mb, data)
+	if !r.Halt {
+		w.fails = append(w.fails, chain.Rec{"act": "setupfail", "m": "deploy " + ctr.Manifest.Name, "res": "FAULT", "fault": r.Fault,
+			"note": "deployment witnessed by both committee accounts failed"})
+	}
+	return w.hashOf(ctr)
+}
+
+func (w *world) deployNamed(name string) {
+	w.h[name] = w.deploy(w.cur[name], w.deployArgs(name))
+	if name != "nns" && name != "neofs" && name != "processing" && name != "alphabet" {
+		w.must(w.h["nns"], []neotest.Signer{w.c.Cmt}, "register", name+".neofs", w.c.Cmt.ScriptHash(), "ops@nspcc.io",
+			int64(3600), int64(600), int64(10*365*24*3600), int64(3600))
+		w.must(w.h["nns"], []neotest.Signer{w.c.Cmt}, "addRecord", name+".neofs", int64(16), w.h[name].StringLE())
+	}
+}
+
+// renamed returns a copy of the contract under another manifest name (another contract hash).
+func renamed(ctr *neotest.Contract, name string) *neotest.Contract {
+	m := *ctr.Manifest
+	m.Name = name
+	return &neotest.Contract{NEF: ctr.NEF, Manifest: &m}
+}
 
 func (w *world) deployArgs(name string) any {
 	switch name {
 	case "nns":
-		return nil
+		return []any{[]any{[]any{"neofs", "ops@nspcc.io"}}}
 	case "netmap":
-		return []any{false, util.Uint160{}, util.Uint160{}, []any{}, []any{}}
+		return []any{false, util.Uint160{}, util.Uint160{}, []any{},
+			[]any{[]byte("ContainerFee"), int64(1000), []byte("ContainerAliasFee"), int64(500)}}
 	case "balance", "neofsid":
 		return []any{false, util.Uint160{}, util.Uint160{}}
 	case "reputation", "audit":
@@ -223,7 +261,7 @@ func (w *world) deployArgs(name string) any {
 		for i, p := range w.c.Privs {
 			ks[i] = p.PublicKey().Bytes()
 		}
-		return []any{false, w.cur["processing"].Hash, ks, []any{
+		return []any{false, w.hashOf(w.cur["processing"]), ks, []any{
 			[]byte("InnerRingCandidateFee"), int64(1_0000_0000), []byte("WithdrawFee"), int64(1000_0000)}}
 	case "processing":
 		return []any{w.h["neofs"]}
@@ -246,37 +284,25 @@ func newWorld(t *testing.T, n int, seed int64, rec *chain.Recorder, tid int) *wo
 	}
 	w.sub = c.CompileDir(filepath.Join(harnessRoot(), "contracts", "accesssub"))
 
-	w.h["nns"] = c.DeployNNS()
-	w.h["netmap"] = c.DeployNetmap([]byte("ContainerFee"), int64(1000), []byte("ContainerAliasFee"), int64(500))
-	w.h["balance"] = c.DeployBalance()
-	w.h["neofsid"] = c.DeployNeoFSID()
-	w.h["proxy"] = c.DeployProxy()
-	// Container's _deploy registers its TLD, which takes the committee's witness; the deployment is signed by the
-	// validators' (= Alphabet) account, so the TLD is registered beforehand
+	w.deployNamed("nns") // must get id 1
+	w.deployNamed("netmap")
+	w.deployNamed("balance")
+	w.deployNamed("neofsid")
+	w.deployNamed("proxy")
+	// Container's _deploy registers its TLD, which takes the committee's witness
 	w.must(w.h["nns"], []neotest.Signer{c.Cmt}, "registerTLD", "container", "ops@nspcc.io", int64(3600), int64(600), int64(10*365*24*3600), int64(3600))
-	w.h["container"] = c.DeployContainer()
-	w.h["reputation"] = c.DeployReputation()
-	w.h["audit"] = c.DeployAudit()
-	w.h["neofs"] = w.cur["neofs"].Hash
-	c.Deploy(w.cur["neofs"], w.deployArgs("neofs"))
-	w.h["processing"] = w.cur["processing"].Hash
-	c.Deploy(w.cur["processing"], w.deployArgs("processing"))
-	w.h["alphabet"] = w.cur["alphabet"].Hash
-	c.Deploy(w.cur["alphabet"], w.deployArgs("alphabet"))
-	kc := c.CompileDir(filepath.Join(harnessRoot(), "contracts", "caller"))
-	c.Deploy(kc, nil)
-	w.kc = kc.Hash
+	w.deployNamed("container")
+	w.deployNamed("reputation")
+	w.deployNamed("audit")
+	w.deployNamed("neofs")
+	w.deployNamed("processing")
+	w.deployNamed("alphabet")
+	w.kc = w.deploy(c.CompileDir(filepath.Join(harnessRoot(), "contracts", "caller")), nil)
 	// the NeoFS contract once more, in the notary-disabled mode (votes of the stored keys are collected)
-	vm := *w.cur["neofs"].Manifest
-	vm.Name += " #votes"
-	vc := &neotest.Contract{NEF: w.cur["neofs"].NEF, Manifest: &vm,
-		Hash: state.CreateContractHash(c.E.Validator.ScriptHash(), w.cur["neofs"].NEF.Checksum, vm.Name)}
 	va := w.deployArgs("neofs").([]any)
 	va[0] = true
-	c.Deploy(vc, va)
-	w.h["neofs#votes"] = vc.Hash
-	c.FundGAS(vc.Hash, 1000_0000_0000)
-
+	w.h["neofs#votes"] = w.deploy(renamed(w.cur["neofs"], w.cur["neofs"].Manifest.Name+" #votes"), va)
+	c.FundGAS(w.h["neofs#votes"], 1000_0000_0000)
 	// the keys designated NeoFSAlphabet: a set of their own (as on the main chain)
 	irPrivs := make([]*keys.PrivateKey, n)
 	for i := range irPrivs {
@@ -707,6 +733,10 @@ func (w *world) manifestLines(tbl map[string]bool, tblSafe map[string]bool, emit
 	return msafe
 }
 
+// traps: the witness cells of the defects found by this check are executed on every chain,
+// also where the methods are sampled
+var traps = map[string]bool{"balance.transferX/4/": true, "neofs.setConfig/3/votes": true}
+
 func TestDrive(t *testing.T) {
 	out := os.Getenv("VERIF_OUT")
 	if out == "" {
@@ -769,7 +799,7 @@ func TestDrive(t *testing.T) {
 	nofx := 0
 	for gi, k := range order {
 		g := groups[k]
-		if sample > 1 && (gi+int(seed))%sample != 0 {
+		if sample > 1 && (gi+int(seed))%sample != 0 && !traps[k] {
 			continue
 		}
 		mk := fmt.Sprintf("%s.%s/%d", g.first.C, g.first.M, g.first.A)
